@@ -28,6 +28,9 @@ GateCases(e) ==
       /\ \A i \in 1..n : \A d \in GateTypes : d # BaseType(e, i) => P(GateCase(e, [Base(e, n) EXCEPT ![i] = d], "dtype"))
       /\ \A i \in 1..n : i > e.min => P(GateCase(e, [Base(e, n) EXCEPT ![i] = "nil"], "nil_optional"))
       /\ \A i, j \in 1..n : (i > e.min /\ j > i) => P(GateCase(e, [Base(e, n) EXCEPT ![i] = "nil", ![j] = "nil"], "nil_optional"))
+      \* an absent optional input combined with a perturbed element type at another position (before or after it)
+      /\ \A i, j \in 1..n : (i > e.min /\ j # i) =>
+            \A d \in GateTypes : d # BaseType(e, j) => P(GateCase(e, [Base(e, n) EXCEPT ![i] = "nil", ![j] = d], "nil_and_dtype"))
 
 BadNames == {"", "add", "ADD", " Add", "Add ", "Gelu", "LayerNormalization", "HardSwish", "Mish", "Relu6", "Softmax13", "Pow", "Sqrt", "Identity",
              "ai.onnx.Add", "Scaler2", "lstm", "Conv2D", "MaxPool", "BatchNormalization"}
